@@ -30,7 +30,8 @@ P = {
          "gorilla/mux from source: for every clean path the upstream is reached only behind the session chain and the "
          "Proxy gate; auth-only/userinfo/sign-out sit behind the session chain); vh_C01_load_basic_converse (a "
          "well-formed Basic credential reaches the validator intact, colons in the password included); vh_C15_routes "
-         "(bypass rules match the path only).",
+         "(bypass rules match the path only; the bypass decision is the disjunction of rule, preflight and trusted IP), "
+         "vh_C14_aud (audience rule).",
          "in the gate harnesses the request scope is populated directly; the dispatch harness uses a marker session "
          "chain and excludes the start/callback/static routes; cookie signature/expiry are C02/C09, token verification "
          "C04"),
@@ -39,7 +40,8 @@ P = {
          "same secret; name/value/timestamp/signature (removed, replaced, truncated)/secret/extra-part tampering; "
          "vh_C13_gcm_roundtrip, vh_C10_manager_roundtrip, vh_C13_manager_save (ticket cookie -> store key, AEAD round "
          "trip), vh_C10_cookie_roundtrip (cookie store Save->Load with the real code); CSRF cookie tampering in "
-         "vh_C03_flow_single. Secrecy clause: verifOpaque obligations (stored value, ticket cookie, session cookie reveal "
+         "vh_C03_flow_single; a writer to the store without any secret altering the stored value (vh_C10_manager_roundtrip: "
+         "never loads). Secrecy clause: verifOpaque obligations (stored value, ticket cookie, session cookie reveal "
          "no token/e-mail/user outside an encryption/MAC/hash application, where an encryption whose key can be read off the "
          "observable - e.g. from the store key - counts as transparent) decided by a walk over the symbolic terms "
          "under the ideal-crypto model, exposures confirmed natively.",
@@ -49,7 +51,9 @@ P = {
  'C03': ("vh_C03_flow_single/_two (doOAuthStart -> OAuthCallback with the real csrf/encryption code, ideal crypto: session "
          "established only with the own state and the own CSRF cookie; foreign/arbitrary state, redirect-half replaced, "
          "line-break re-spelling of the state nonce, forged/renamed/extended cookie, no cookie; two outstanding logins in "
-         "any completion order, per-request and fixed names; converse), vh_C05_pkce, vh_C19_csrf_names.",
+         "any completion order, per-request and fixed names, names differing in letter case only; converse: the own login "
+         "always reaches redemption), vh_C05_pkce, vh_C19_csrf_names, vh_C03_hash_nonce_race (the state/nonce hashing is "
+         "free of data races under concurrent requests).",
          "crypto/msgpack ideal; clock frozen inside the CSRF validity window; per-request cookie-name prefixes of two "
          "fresh logins assumed distinct for the converse (the coinciding case is explored but cannot be replayed "
          "natively); base64 decoder laxness modelled for inserted line breaks only"),
@@ -60,13 +64,14 @@ P = {
          "refused); vh_C05_nonce (ValidateSession verifies the token); vh_C14_profile_failure (profile fallback only for "
          "missing claims; failures are errors); vh_C01_load_jwt: a bearer session comes only from a token a verifier "
          "accepted; vh_C04_verifier_config (the library verifier is told to skip the issuer check only on the operator's "
-         "request, never expiry or signature).",
+         "request, never expiry or signature); vh_C04_token_claims_first (profile answers never replace claims the token "
+         "carries); vh_C12_oidc_refresh (identity and groups of a refreshed session come from the refreshed token).",
          "go-oidc's signature/issuer/expiry/alg verification is one nondeterministic accept/reject outside the encoding "
          "(alg-confusion not decided); claims are JSON values of depth <= 1"),
  'C05': ("vh_C05_pkce (S256/plain: challenge derived from the fresh verifier, exactly that verifier reaches Redeem, "
          "verifier length 43..128, method parameter; verifier and raw OIDC nonce opaque in everything shown to the browser "
          "- verifOpaque term walk under ideal crypto), vh_C05_nonce (checkNonce: nonce claim present, a string, "
-         "hash-matching the session nonce unless skipped; converse), vh_C05_config_plumbing (configured "
+         "hash-matching the session nonce unless skipped; the honest provider's claim is an explicit move; converse), vh_C05_config_plumbing (configured "
          "code-challenge method reaches ProviderData for every non-discovery provider type), vh_C05_entra_nonce (the Entra ID "
          "provider's tenant rule never replaces token verification and the nonce check), vh_C03_flow_*: the session "
          "handed to ValidateSession/Save carries the OIDC nonce whose hash was sent in this login's authorization request.",
@@ -78,7 +83,7 @@ P = {
          "all getters), vh_C03_flow_single (callback redirect validated; login redirect targets the provider; plain rd "
          "round trip byte for byte), vh_C16_redirect_pair, vh_C06_abs_hostless (host-less URLs and host-less whitelist "
          "entries allow nothing), vh_C06_chain_converse (a plain path and query comes back byte for byte; only prefix+'/' "
-         "paths go to '/').",
+         "paths go to '/'; the rd field of the POSTed sign-in form is where the user lands).",
          "url.Parse is uninterpreted (Go-vs-browser parser differential not decided); http.Redirect's path cleaning "
          "modelled only for clean rooted/absolute targets"),
  'C07': ("vh_C07_request/_response: NewRequestHeaderInjector/NewResponseHeaderInjector (strip -> inject -> flatten, all "
@@ -91,7 +96,7 @@ P = {
  'C08': ("vh_C08_email (isEmailValidWithDomains equals last-'@' reference), vh_C08_authonly_groups/_emails/_all/"
          "_domain_concrete (+_domains thorough) (authOnlyAuthorize equals reference incl. exactly-one-'@'), vh_C01_gate_* "
          "(failing session => 403 + cookie cleared), vh_C03_flow_single (callback saves only if validator and Authorize), "
-         "vh_C20_usermap_reload (allow-list changes take effect), vh_C08_validator (the installed validator closure: "
+         "vh_C20_usermap_reload and vh_C20_watcher_events (allow-list changes take effect, however the file was replaced), vh_C08_validator (the installed validator closure: "
          "domain rule OR allow-list file, '*', empty e-mail, case-insensitive), vh_C08_groups (ProviderData.Authorize = "
          "allowed-groups intersection), vh_C08_authonly_body (a relayed urlencoded request body never widens the auth-only "
          "query constraints).",
@@ -100,8 +105,9 @@ P = {
  'C09': ("vh_C09_window(_ns) (Validate window both directions), vh_C10_cookie_roundtrip and vh_C10_manager_roundtrip "
          "(a saved session loads iff its creation time lies inside the lifetime: the signature timestamp is "
          "session.CreatedAt, cookie store and ticket store), vh_C13_manager_save (store TTL = cookie expire, Max-Age), "
-         "vh_C11_manager_clear (Clear leaves the configured expire alone), vh_C18_make (Max-Age), vh_C12_seq (refresh "
-         "re-stamps CreatedAt).",
+         "vh_C11_manager_clear (Clear leaves the configured expire alone), vh_C18_make and vh_C10_split (Max-Age, also on "
+         "split parts), vh_C02_mac_one (the timestamp is covered by the MAC), vh_C12_seq (refresh re-stamps CreatedAt; a "
+         "failed reload never extends a session).",
          "clock = one symbolic instant; timestamp re-split arithmetic (DESIGN C09) not built"),
  'C10': ("vh_C10_split/_step/_clear (cookie store: parts <= 4000 bytes, names, concatenation, inductive step over an "
          "arbitrary jar, nothing loads after clear), vh_C10_cookie_roundtrip (real Save -> Load with ideal crypto: every "
@@ -111,16 +117,17 @@ P = {
          "groups"),
  'C11': ("vh_C10_clear (cookie store deletes every presented session cookie with fresh-cookie attributes), "
          "vh_C11_manager_clear (server-side: cookie always deleted, the presented ticket's key cleared, error iff the "
-         "store failed), vh_C11_signout (SignOut: clear attempted first; failure => 500 error page and no success "
-         "redirect).",
-         "backend-logout HTTP call and Redis itself not harnessed"),
+         "store failed, a ticket that does not validate is an error), vh_C11_signout (SignOut: clear attempted first; "
+         "failure => 500 error page and no success redirect; backend logout answering, failing or unreachable), "
+         "vh_C18_make (a deletion carries the domain the cookie was set with), vh_C12_seq.",
+         "Redis itself not harnessed"),
  'C12': ("vh_C12_seq: stored-session loader with nondeterministic store/lock/refresher/validator: stale => "
          "refreshed-and-saved or revalidated, validated session = session in force, new tokens in scope and in Save, lock "
          "released, save under lock; vh_C12_conc: op-traces of two (thorough: two or three) requests sharing a ticket "
          "composed under a symbolic scheduler (exactly one refresh, all served, newest tokens); vh_C12_redis_lock_obtain (redislock outcome "
          "mapping); vh_C12_oidc_refresh (OIDC refresh over an oauth2 token-endpoint stub: new access token, rotated refresh "
          "token and - when one came back - the new ID token and identity are in the session; a failed refresh leaves "
-         "it untouched).",
+         "it untouched); vh_C11_manager_clear (the cookie is cleared whatever the store says).",
          "2 (thorough 3) concurrent requests, a request finds the lock busy at most twice; lock timeout never fires (provider answers within the lock duration, as the property "
          "assumes)"),
  'C13': ("vh_C12_seq, vh_C01_gate_*, vh_C13_manager_save, vh_C10_manager_roundtrip, vh_C11_manager_clear, "
@@ -142,9 +149,11 @@ P = {
  'C15': ("vh_C15_routes (16 rules x every method/path/query), vh_C15_netset_single/_pair (NetSet.AddIPNet/Has/"
          "getNetMaps/ipNetMap.has + net.IP.To4/To16/Mask from stdlib SSA in bit-vector mode equal CIDR membership for "
          "symbolic addresses and prefixes, all boundary prefix lengths, v4/v6/v4-mapped), vh_C15_clientip (with a real-client-IP "
-         "header configured the address is the parser's verdict, never the connection address).",
+         "header configured the address is the parser's verdict, never the connection address), vh_C15_xff_parser (header "
+         "shapes: first list element, any comma spacing, ports, bracketed IPv6).",
          "rules from a concrete grammar; ParseIP/ParseCIDR text parsing outside; IP.String injective model"),
- 'C16': ("vh_C16_getters(_on), vh_C16_https, vh_C16_routes, vh_C16_redirect_pair, vh_C06_chain, vh_C18_make: "
+ 'C16': ("vh_C16_getters(_on), vh_C16_https, vh_C16_routes, vh_C16_redirect_pair, vh_C06_chain, vh_C18_make, vh_C16_trusted_ip, "
+         "vh_C15_clientip: "
          "non-interference by self-composition on every reader of X-Forwarded-*/real-client-IP headers with reverse-proxy "
          "off.",
          "'real-client-IP parser only installed in reverse-proxy mode' (validation.Validate) not executed"),
@@ -156,11 +165,14 @@ P = {
          "configured prefix wins, on the percent-encoded path when raw-path proxying is on), vh_C17_relay (the first-party "
          "response-writer wrapper relays every WriteHeader/Write/Flush of the upstream handler unchanged and in order, "
          "1xx responses included), vh_C17_upstream_serve (exactly one of the plain/websocket proxies serves a request; the "
-         "websocket one only when enabled and on a handshake).",
+         "websocket one only when enabled and on a handshake), vh_C17_rewrite_path (escapes survive a rewrite; known "
+         "finding: %2F is decoded), vh_C17_healthcheck (the ping endpoint answers only the wire path), "
+         "vh_C17_file_request_uri.",
          "httputil.ReverseProxy's transport, request bodies and file upstreams NOT decided (third-party machinery); the "
          "mux harness uses static-response upstreams"),
  'C18': ("vh_C18_make (MakeCookieFromOptions/GetCookieDomain), vh_C18_sort (validateCookie ordering composed with the "
-         "constructor), vh_C10_split/_clear (parts and deletions copy attributes), vh_C13_manager_save/_clear (ticket "
+         "constructor), vh_C10_split/_clear and vh_C18_split_attributes (parts and deletions copy attributes, every flag "
+         "combination), vh_C13_manager_save/_clear (ticket "
          "cookie), vh_C03_flow_* (CSRF cookie).",
          "cookie serialisation by net/http (length stub)"),
  'C19': ("implicit-panic obligations (index, slice, nil, type assertion, map, division) on every function executed in "
@@ -170,8 +182,10 @@ P = {
  'C20': ("vh_C20_htpasswd_race/_race_getusers/_usermap_race (happens-before race query over load/store/lock/atomic "
          "events extracted from the symbolic execution of the real functions, both extraction orders, reads-from "
          "consistent schedules), vh_C20_htpasswd_reload/_usermap_reload (failed reload keeps old contents, successful "
-         "reload replaces completely).",
-         "2 threads, 1 reload; sync/atomic semantics axiomatised; fsnotify and file-system atomicity outside"),
+         "reload replaces completely), vh_C20_watcher_events (every kind of change of the watched file triggers exactly one "
+         "synchronous reload).",
+         "2 threads, 1 reload; sync/atomic semantics axiomatised; fsnotify's event delivery and file-system atomicity "
+         "outside (vh_C20_watcher_events starts at filterEvent)"),
 }
 
 
